@@ -1452,8 +1452,15 @@ class TransferSyntaxSubItem(PDUItem):
             ("item_type", PACK_UCHAR, []),
             (None, self._wrap_pack, [0x00, PACK_UCHAR]),
             ("item_length", PACK_UINT2, []),
-            ("transfer_syntax_name", self._wrap_encode_str, []),
+            ("transfer_syntax_name", self._wrap_encode_name, []),
         ]
+
+    def _wrap_encode_name(self, value: UID | None) -> bytes:
+        """Encode the name, a zero-length name is decoded as ``None`` (#342)"""
+        if value is None:
+            return b""
+
+        return self._wrap_encode_str(value)
 
     @property
     def item_length(self) -> int:
